@@ -604,6 +604,7 @@ def run(rep, progs, tier):
     rep.rule("C10.in-progress-def", "is_frame_in_progress() is true in every builder state except Initial")
     rep.rule("C10.connect", "0-byte read during the greeting always yields UnexpectedEof")
     rep.rule("C10.deliver-first", "parse on buffered bytes dominates the read")
+    rep.rule("C10.segmentation", "imported from C02: only streaming combinators in the line parser")
     rep.trusted = ["rustc MIR construction", "mpdfacts exporter", "BytesMut::is_empty/len semantics", "Read::read / read_buf return 0 only at EOF"]
     for cfg, prog in progs.items():
         READS.bind(prog)
@@ -613,3 +614,8 @@ def run(rep, progs, tier):
             receive_rule(rep, prog, cfg, "mpd_protocol::connection::AsyncConnection::receive", "async")
             connect_rule(rep, prog, cfg, "mpd_protocol::connection::AsyncConnection::connect", "async")
         in_progress_def(rep, prog, cfg)
+        # "every cut position": a cut just in front of a terminator must be 'need more' (then EOF => UnexpectedEof), which only
+        # the streaming combinators give — a complete-input one reports the cut as a malformed message instead
+        from .C02 import streaming_rule
+        with rep.importing("C02.streaming", "C10.segmentation"):
+            streaming_rule(rep, prog, cfg)
